@@ -32,4 +32,4 @@ def run(tier):
     progs = gen.c20_scope(tier)
     return run_e2e_property("C20", tier, EXPLANATION, "DESIGN §4 C20",
                             [("e2e-named-results", progs, "named results of every producer kind, aliases, consumed names")],
-                            contract_modules=["contracts.c20", "contracts.c20b", "contracts.c16b"], extra=_analyze_box)
+                            contract_modules=["contracts.c20", "contracts.c20b", "contracts.c16b", "contracts.cdispatch"], extra=_analyze_box)
